@@ -187,6 +187,26 @@ func genC11(tier, out string, sum *Summary) {
 			}
 		}
 	}
+	// lower / upper map code point by code point (the simple case mappings of the toolchain's unicode package, which
+	// the model holds as a table regenerated on every run): pairs whose two cases have different widths in UTF-8
+	// (Kelvin sign, dotless i, long s, sharp S, turned a ...), title-case letters, scripts beyond the BMP, letters
+	// without a counterpart, and bytes that are not UTF-8 (each becomes U+FFFD); the number of code points never changes
+	for _, str := range []string{"Kelvin K", "ı ſ ẞ ß", "ɐb Ɐ ɫ Ɫ", "Ω Ω ω", "Å Å å", "ǅ ǆ Ǆ ǈ", "İstanbul", "ΑΣ ας", "ὈΔΥΣΣΕΎΣ", "Straße", "ÉLÉMENT élément", "Привет ПРИВЕТ", "𐐀𐐨 𐐁𐐩", "Ꭰ ꭰ", "ა Ა", "ⴀ Ⴀ", "ǰ ŉ", "ﬁ ﬂ", "ÿ Ÿ", "µ Μ μ", "A\xffB", "\xc3", "é\x80É", "", "abcXYZ", "ÇA VA ça va", "日本語 テキスト", "١٢٣", "ⅰ Ⅰ ⅿ Ⅿ", "ⓐ Ⓐ", "ａ Ａ", "ꙁ Ꙁ", "ᲀ ᲁ", "Ჿ ჿ", "ꞵ Ꞵ", "𞤀 𞤢"} {
+		d := map[string]any{"s": str}
+		for _, e := range []string{"lower(s)", "upper(s)", "lower(upper(s))", "upper(lower(s))", "length(lower(s)) == length(s)", "length(upper(s)) == length(s)", "[lower(s), upper(s)] | [0] == [1]", "lower(s) == s", "map(&upper(@), [s, lower(s)])"} {
+			o := run(e, d)
+			sum.count("case-mapping/" + o.Kind)
+			if strings.HasPrefix(e, "length(") && !(o.Kind == "val" && o.Value == true) {
+				sum.direct("case-mapping", e, d, "a case mapping changed the number of code points: "+describe(o))
+			}
+		}
+		if o := search("lower(s)", d); o.Kind == "val" && o.Value != strings.ToLower(str) {
+			sum.direct("case-mapping", "lower(s)", d, "expected "+strconv.Quote(strings.ToLower(str))+", got "+describe(o))
+		}
+		if o := search("upper(s)", d); o.Kind == "val" && o.Value != strings.ToUpper(str) {
+			sum.direct("case-mapping", "upper(s)", d, "expected "+strconv.Quote(strings.ToUpper(str))+", got "+describe(o))
+		}
+	}
 	// cut sets are sets of code points: a character that shares its first byte with one in the set stays
 	for _, c := range [][2]string{{"éa", "è"}, {"ààéa", "à"}, {"жук", "з"}, {"。、", "、"}, {"aéè", "è"}, {"éèé", "é"}, {"😀😁x", "😁"}, {"x😀😁", "😀"}, {"€₭", "₭"}, {"ab", ""}, {"  é ", " "}, {"éé", "éè"}} {
 		subj, cut := c[0], c[1]
